@@ -344,7 +344,16 @@ func c20History(c *h.Ctx, id string, r *rand.Rand) {
 	if cr.stop {
 		return
 	}
-	// ---- end: a long advance resolves everything
+	// ---- end: a long advance resolves everything - also when the application stops the engine
+	// first (pending Interests are not silently forgotten: each still resolves, by timeout)
+	if r.Intn(4) == 0 {
+		cr.hist = append(cr.hist, &c20Event{Ev: "engine-stop"})
+		if pi := h.Guard(func() { _ = cr.eng.Stop() }); pi != nil {
+			cr.fail("C20:panic:stop:"+pi.Frame+":"+pi.Class, "Engine.Stop panicked: "+pi.Value, nil)
+			return
+		}
+		c.Count("histories_ending_with_engine_stop", 1)
+	}
 	cr.fired = nil
 	ev := &c20Event{Ev: "advance", Ms: 10000}
 	cr.hist = append(cr.hist, ev)
